@@ -31,6 +31,11 @@ def ensure_jobs(tier):
              "_obligation": "O3", "_covers": ["ensured"], "unwind": 40} for k in (0, 1, 2, 3)]
 
 
+def save_jobs(tier):
+    return [{"id": f"O1.save.branchable{b}", "func": "VerifH_S1_Save", "conf": {"branchable": b, "faults": 80, "dag": "", "orders": "all", "shortid": 0},
+             "_obligation": "O1+O2", "_covers": ["faulted"], "unwind": 160} for b in (0, 1)]
+
+
 def seq_jobs(tier):
     return [{"id": "O1.sequence", "func": "VerifH_C14_FaultPropagation", "conf": {}, "_obligation": "O1+O2", "_covers": ["ran"]}]
 
@@ -47,6 +52,7 @@ PROPERTY = {
         {"name": "block", "pkg": "internal/core/block", "files": ["zz_verif_block.go"], "common": ["intrinsics", "kvmodel"],
          "jobs": head_jobs, "overrides": OVR, "unwind": 30},
         dict(_c02.SUITE, name="merge", jobs=merge_jobs),
+        dict(_c20.SAVE_SUITE, name="save", jobs=save_jobs),
         dict(_c02.SUITE, name="ensuretxn", jobs=ensure_jobs, files=["zz_verif_env.go", "zz_verif_merge.go", "zz_verif_c05txn.go"]),
         {"name": "sequence", "pkg": "internal/db/sequence", "files": ["zz_verif_c14.go"], "common": ["intrinsics", "kvmodel"], "jobs": seq_jobs},
         {"name": "txn", "pkg": "internal/datastore", "files": ["zz_verif_txn.go"], "common": ["intrinsics", "kvmodel"], "jobs": txn_jobs},
